@@ -218,6 +218,332 @@ def second_oracle(src, action, args, dst):
     return None
 
 
+# ---------------------------------------------------------------------------------------------
+# 1:1 transliteration of the operators of spec/Numeric.tla over Python Fractions (unbounded integers).
+# It is NOT an independent oracle: `pym_check` requires it to reproduce the target state of EVERY edge of the
+# TLC graph (all four types, specials, signed zeros), and only then is it used to instantiate the same defining
+# equations on operands that TLC's 32-bit integers cannot hold (the wide family below).
+
+def _fin(t, q: Fraction, negzero=False):
+    q = Fraction(q)
+    if t in ('flt', 'dbl'):
+        ap = _strip(q.denominator, 2) != 1
+        return dict(t=t, k='fin', q=(q.numerator, q.denominator), nz=bool(q == 0 and negzero), ap=ap)
+    ap = _strip(_strip(q.denominator, 2), 5) != 1
+    return dict(t=t, k='fin', q=(q.numerator, q.denominator), nz=False, ap=ap)
+
+
+def _strip(d: int, f: int) -> int:
+    while d % f == 0:
+        d //= f
+    return d
+
+
+def _special(t, k):
+    return dict(t=t, k=k, q=(0, 1), nz=False, ap=False)
+
+
+def _err(code):
+    return dict(t='err', code=code)
+
+
+_RANK = {'int': 1, 'dec': 2, 'flt': 3, 'dbl': 4}
+_isfloat = lambda t: t in ('flt', 'dbl')          # noqa: E731
+_isfin = lambda v: v['k'] == 'fin'                # noqa: E731
+_isnan = lambda v: v['k'] == 'nan'                # noqa: E731
+_isinf = lambda v: v['k'] in ('pinf', 'ninf')     # noqa: E731
+_iszero = lambda v: _isfin(v) and v['q'][0] == 0  # noqa: E731
+_promote = lambda ta, tb: ta if _RANK[ta] >= _RANK[tb] else tb   # noqa: E731
+_inf = lambda t, sign: _special(t, 'ninf' if sign < 0 else 'pinf')   # noqa: E731
+_trunc = lambda q: Fraction(math.trunc(q))        # noqa: E731
+
+
+def _signbit(v) -> int:
+    if v['k'] == 'ninf':
+        return -1
+    if v['k'] == 'pinf':
+        return 1
+    if v['nz']:
+        return -1
+    return -1 if v['q'][0] < 0 else 1
+
+
+def pym_add(a, b):
+    t = _promote(a['t'], b['t'])
+    if not _isfloat(t):
+        return _fin(t, frac(a) + frac(b))
+    if _isnan(a) or _isnan(b):
+        return _special(t, 'nan')
+    if _isinf(a) and _isinf(b):
+        return _special(t, a['k']) if a['k'] == b['k'] else _special(t, 'nan')
+    if _isinf(a):
+        return _special(t, a['k'])
+    if _isinf(b):
+        return _special(t, b['k'])
+    return _fin(t, frac(a) + frac(b), _signbit(a) < 0 and _signbit(b) < 0)
+
+
+def pym_neg(a):
+    if _isfloat(a['t']):
+        if _isnan(a):
+            return a
+        if _isinf(a):
+            return _inf(a['t'], -_signbit(a))
+        return _fin(a['t'], -frac(a), _signbit(a) > 0)
+    return _fin(a['t'], -frac(a))
+
+
+def pym_sub(a, b):
+    t = _promote(a['t'], b['t'])
+    return pym_add(a, pym_neg(dict(b, t=t) if _isfin(b) else b))
+
+
+def pym_mul(a, b):
+    t = _promote(a['t'], b['t'])
+    s = _signbit(a) * _signbit(b)
+    if not _isfloat(t):
+        return _fin(t, frac(a) * frac(b))
+    if _isnan(a) or _isnan(b):
+        return _special(t, 'nan')
+    if _isinf(a) or _isinf(b):
+        return _special(t, 'nan') if (_iszero(a) or _iszero(b)) else _inf(t, s)
+    return _fin(t, frac(a) * frac(b), s < 0)
+
+
+def pym_div(a, b):
+    t0 = _promote(a['t'], b['t'])
+    t = 'dec' if t0 == 'int' else t0
+    s = _signbit(a) * _signbit(b)
+    if not _isfloat(t):
+        return _err('FOAR0001') if _iszero(b) else _fin(t, frac(a) / frac(b))
+    if _isnan(a) or _isnan(b):
+        return _special(t, 'nan')
+    if _isinf(a):
+        return _special(t, 'nan') if _isinf(b) else _inf(t, s)
+    if _isinf(b):
+        return _fin(t, Fraction(0), s < 0)
+    if _iszero(b):
+        return _special(t, 'nan') if _iszero(a) else _inf(t, s)
+    return _fin(t, frac(a) / frac(b), s < 0)
+
+
+def pym_idiv(a, b):
+    if _isfin(b) and b['q'][0] == 0:
+        return _err('FOAR0001|FOAR0002') if (_isnan(a) or _isinf(a)) else _err('FOAR0001')
+    if _isnan(a) or _isnan(b) or _isinf(a):
+        return _err('FOAR0002')
+    if _isinf(b):
+        return _fin('int', Fraction(0))
+    return _fin('int', _trunc(frac(a) / frac(b)))
+
+
+def pym_mod(a, b):
+    t = _promote(a['t'], b['t'])
+    if not _isfloat(t):
+        return _err('FOAR0001') if _iszero(b) else _fin(t, frac(a) - frac(b) * _trunc(frac(a) / frac(b)))
+    if _isnan(a) or _isnan(b) or _isinf(a) or _iszero(b):
+        return _special(t, 'nan')
+    if _isinf(b):
+        return _fin(t, frac(a), _signbit(a) < 0)
+    return _fin(t, frac(a) - frac(b) * _trunc(frac(a) / frac(b)), _signbit(a) < 0)
+
+
+def pym_abs(a):
+    if _isfloat(a['t']) and not _isfin(a):
+        return a if _isnan(a) else _inf(a['t'], 1)
+    return _fin(a['t'], abs(frac(a)))
+
+
+def _keep(a, q):
+    return _fin(a['t'], q, _signbit(a) < 0)
+
+
+def pym_un(f, a):
+    if f == 'neg':
+        return pym_neg(a)
+    if f == 'abs':
+        return pym_abs(a)
+    if not _isfin(a):
+        return a
+    if f == 'floor':
+        return _keep(a, Fraction(math.floor(frac(a))))
+    if f == 'ceiling':
+        return _keep(a, Fraction(math.ceil(frac(a))))
+    return _keep(a, Fraction(math.floor(frac(a) + Fraction(1, 2))))       # round: ties toward +INF
+
+
+def _scale(p: int) -> Fraction:
+    return Fraction(10) ** p
+
+
+def pym_round_p(a, p):
+    if not _isfin(a):
+        return a
+    return _keep(a, Fraction(math.floor(frac(a) * _scale(p) + Fraction(1, 2))) / _scale(p))
+
+
+def pym_half_even(a, p):
+    if not _isfin(a):
+        return a
+    x = frac(a) * _scale(p)
+    f = math.floor(x)
+    diff = x - f
+    r = f if diff < Fraction(1, 2) else f + 1 if diff > Fraction(1, 2) else (f if f % 2 == 0 else f + 1)
+    return _keep(a, Fraction(r) / _scale(p))
+
+
+PYM_BIN = {'add': pym_add, 'sub': pym_sub, 'mul': pym_mul, 'div': pym_div, 'idiv': pym_idiv, 'mod': pym_mod}
+
+
+def pym_apply(action: str, args: tuple, src):
+    if action == 'Bin':
+        return PYM_BIN[args[0]](src, args[1])
+    if action == 'Un':
+        return pym_un(args[0], src)
+    if action == 'RoundTo':
+        return pym_round_p(src, args[0])
+    return pym_half_even(src, args[0])
+
+
+def _same_value(x, y) -> bool:
+    if x['t'] != y['t']:
+        return False
+    if x['t'] == 'err':
+        return x['code'] == y['code']
+    return (x['k'], tuple(x['q']), bool(x['nz']), bool(x['ap'])) == (y['k'], tuple(y['q']), bool(y['nz']), bool(y['ap']))
+
+
+def pym_check(src, action, args, dst):
+    """the transliteration must reproduce TLC's target state on every edge of the graph"""
+    got = pym_apply(action, args, src)
+    return None if _same_value(got, dst) else f'{action}{args} on {src}: TLC {dst} transliteration {got}'
+
+
+# ---------------------------------------------------------------------------------------------
+# Wide family: the same equations on operands beyond TLC's integers - doubles around 2^52..2^53 and next to 0.5,
+# the extremes of the double and float ranges, integers and decimals beyond 2^53 and 2^64, and the bounds of the
+# derived integer types (spelled with their own constructors: they are xs:integer operands too).
+
+def _wv(t, x) -> dict:
+    return _fin(t, Fraction(x))
+
+
+def _f32(x: float) -> float:
+    return struct.unpack('f', struct.pack('f', x))[0]
+
+
+WIDE_DBL = [float(2 ** 52 + 1), float(2 ** 53 - 1), float(2 ** 53 + 2), -float(2 ** 52 + 1), -float(2 ** 53 - 1),
+            0.49999999999999994, -0.49999999999999994, 0.5000000000000001, 4503599627370495.5, -4503599627370495.5,
+            2251799813685247.5, 1e300, -1e300, 5e-324, 1.7976931348623157e308, 8388607.5, 1e15 + 0.5, 123456789.75]
+WIDE_FLT = [16777213.0, -16777213.0, 8388607.5, -8388607.5, 16777216.0, _f32(3.4028235e38), _f32(1e-30), 33554430.0]     # (elementpath flushes |xs:float| < 1e-37 to zero: a lexical-space matter, C10)
+WIDE_INT = [2 ** 53 + 1, -(2 ** 53 + 1), 2 ** 63 - 1, -2 ** 63, 2 ** 64 - 1, 10 ** 30 + 7, -(10 ** 30 + 7), 2 ** 31, -2 ** 31 - 1]
+WIDE_DEC = ['12345678901234567.5', '-12345678901234567.5', '0.000000000000000001', '99999999999999999.99', '-0.49999999999999994',
+            '9007199254740993.25', '0.5000000000000000001']
+DERIVED = [('byte', -128), ('byte', 127), ('short', -32768), ('int', -2147483648), ('long', -9223372036854775808),
+           ('long', 9223372036854775807), ('negativeInteger', -5), ('nonPositiveInteger', -3), ('nonPositiveInteger', 0),
+           ('nonNegativeInteger', 0), ('positiveInteger', 7), ('unsignedByte', 255), ('unsignedShort', 65535),
+           ('unsignedInt', 4294967295), ('unsignedLong', 18446744073709551615), ('integer', -12)]
+PARTNERS = [('int', 1), ('int', -2), ('int', 3), ('dec', Fraction(1, 2)), ('dec', Fraction(-5, 2)), ('dbl', Fraction(5, 2)),
+            ('dbl', Fraction(-3)), ('dbl', Fraction(1)), ('flt', Fraction(3, 2)), ('flt', Fraction(-2))]
+
+
+def wide_text(v, spelling=None) -> str:
+    if spelling:
+        return f'xs:{spelling}("{v["q"][0]}")'
+    if v['t'] == 'int':
+        n = v['q'][0]
+        return str(n) if n >= 0 else f'({n})'
+    if v['t'] == 'dec':
+        sd = dec_str(frac(v))
+        if '.' not in sd:
+            sd += '.0'
+        return sd if not sd.startswith('-') else f'({sd})'
+    x = float(frac(v))
+    return f'xs:{"float" if v["t"] == "flt" else "double"}("{x!r}")'
+
+
+def _digits(q: Fraction) -> int:
+    """significant decimal digits of a terminating fraction (99 if it does not terminate)"""
+    d = q.denominator
+    if _strip(_strip(d, 2), 5) != 1:
+        return 99
+    k = 0
+    while (10 ** k) % d:
+        k += 1
+    return len(str(abs(q.numerator) * (10 ** k // d)).strip('0')) or 1
+
+
+def wide_expected(exp):
+    """None when the case is outside what the specification decides (see DESIGN C06: decimal precision is
+    implementation-defined beyond 28 digits; overflow/underflow of doubles are not modelled by exact rationals)."""
+    if exp['t'] == 'err' or exp['k'] != 'fin':
+        return exp
+    q = frac(exp)
+    if exp['t'] == 'dec' and (exp['ap'] or _digits(q) > 27):
+        return None
+    if exp['t'] in ('flt', 'dbl'):
+        try:
+            x = float(q)
+        except OverflowError:
+            return None
+        if (x == 0.0) != (q == 0) or math.isinf(x):
+            return None
+        if exp['t'] == 'flt':
+            if q != 0 and (abs(q) > Fraction(3.4028234e38) or abs(q) < Fraction(1.2e-38)):
+                return None
+            exp = dict(exp, ap=True)       # rounding to single precision: compared to the nearest float / 1e-6
+        elif Fraction(x) != q:
+            exp = dict(exp, ap=False)      # correctly rounded by the projection float(Fraction)
+    return exp
+
+
+def wide_cases():
+    ops = []
+    wides = [(_wv('dbl', x), None) for x in WIDE_DBL] + [(_wv('flt', x), None) for x in WIDE_FLT] + \
+            [(_wv('int', n), None) for n in WIDE_INT] + [(_wv('dec', Fraction(d)), None) for d in WIDE_DEC] + \
+            [(_wv('int', n), tname) for tname, n in DERIVED]
+    for a, sp in wides:
+        ta = wide_text(a, sp)
+        for f in ('neg', 'abs', 'floor', 'ceiling', 'round'):
+            ops.append((('-' + ta) if f == 'neg' else f'{f}({ta})', pym_un(f, a), ['2.0', '3.1'], dict(action='WideUn', op=f, ta=a['t'], spelling=sp or 'plain')))
+        for pr in (-1, 0, 1, 2):
+            ops.append((f'round({ta}, {pr})', pym_round_p(a, pr), ['3.0', '3.1'], dict(action='WideRoundTo', op='RoundTo', ta=a['t'], spelling=sp or 'plain')))
+            ops.append((f'round-half-to-even({ta}, {pr})', pym_half_even(a, pr), ['2.0', '3.1'], dict(action='WideRoundHE', op='RoundHE', ta=a['t'], spelling=sp or 'plain')))
+        for tb, qb in PARTNERS:
+            b = _wv(tb, qb)
+            # a non-dyadic value promoted to a floating type is rounded by the cast: outside the model (ExactlyPromotable)
+            if _isfloat(_promote(a['t'], tb)) and (_strip(frac(a).denominator, 2) != 1 or _strip(Fraction(qb).denominator, 2) != 1):
+                continue
+            if _isfloat(_promote(a['t'], tb)) and a['t'] in ('int', 'dec') and Fraction(float(frac(a))) != frac(a):
+                continue       # the promotion of the wide integer/decimal itself rounds
+            if _promote(a['t'], tb) == 'flt' and Fraction(_f32(float(frac(a)))) != frac(a):
+                continue
+            tbx = render(b, 'lit')
+            for op, sym in OPS.items():
+                ops.append((f'{ta} {sym} {tbx}', PYM_BIN[op](a, b), ['2.0', '3.1'], dict(action='WideBin', op=op, ta=a['t'], tb=tb, spelling=sp or 'plain', side='left')))
+                ops.append((f'{tbx} {sym} {ta}', PYM_BIN[op](b, a), ['2.0', '3.1'], dict(action='WideBin', op=op, ta=tb, tb=a['t'], spelling=sp or 'plain', side='right')))
+    out = []
+    for text, exp, vs, feat in ops:
+        e = wide_expected(exp)
+        if e is not None:
+            out.append((text, e, vs, feat))
+    return out
+
+
+def wide_worker(job):
+    fails, n = [], 0
+    for text, exp, vs, feat in job:
+        for v in vs:
+            obs = evaluate(text, v)
+            n += 1
+            out = compare(exp, obs, v)
+            if out is not None:
+                f = dict(feat, outcome=out, parser='2+', sign_a=None,
+                         expected_kind=('err:' + exp['code']) if exp['t'] == 'err' else sign_class(exp))
+                fails.append((f, dict(expr=text, parser=v), exp, obs))
+    return n, fails
+
+
 _nested_ok: dict = {}
 
 
@@ -346,7 +672,7 @@ def worker(job):
     n_eval = 0
     oracle = []
     for (src, src_texts, action, args, dst) in edges:
-        msg = second_oracle(src, action, args, dst)
+        msg = second_oracle(src, action, args, dst) or pym_check(src, action, args, dst)
         if msg:
             oracle.append(msg)
         for style, nested, stext in src_texts:
@@ -492,6 +818,15 @@ def run(chk: core.Check) -> None:
         if oracle_msgs:
             raise tla.MachineryError(f'spec/Numeric disagrees with python fractions: {oracle_msgs[:5]}')
         print(f'  {name}: states={r.distinct} edges={len(jobs_edges)} tlc={r.wall_s:.1f}s', flush=True)
+    # wide family (after pym_check has validated the transliteration on every edge of every graph above)
+    wides = wide_cases()
+    for n_eval, fails in core.pool_map(wide_worker, core.chunked(wides, 32)):
+        chk.add('evaluations', n_eval)
+        for feat, case, exp, obs in fails:
+            chk.fail(feat, case, exp, obs, what=case['expr'])
+    chk.add('traces_validated_against_impl', len(wides))
+    chk.coverage['wide_family_cases'] = len(wides)
+    print(f'  wide family: cases={len(wides)}', flush=True)
     chk.coverage['exhaustive'] = True
     chk.coverage['rule'] = ('every edge of the TLC graph of Numeric (accumulator x operator x grid operand, chains to MaxDepth) '
                             'is one case, rendered in literal, constructor and nested-expression spellings; distinct = (action, operand, source value)')
